@@ -69,6 +69,8 @@ FUNCS = {
     "lp": dict(c="char lp(char n) { char r; r = 0; while (n) { r += 2; n--; } return r; }", params=[("lp_n", 8)], body=None, calls=[]),
     "er": dict(c="char er(char x) { for (Y = 0; Y < 4; Y++) { if (arr[Y] == x) return Y; } return 9; }", params=[("er_x", 8)], body=None, calls=[]),
     "sw": dict(c="char sw(char x) { switch (x) { case 0: return 5; case 1: c++; break; default: c = x; } return c; }", params=[("sw_x", 8)], body=None, calls=[]),
+    # a function whose result is a signed char
+    "sf": dict(c="signed char sf(signed char v) { return v; }", params=[("sf_v", 8, True)], rsg=True, body=[{"k": "return", "e": V("sf_v")}], calls=[]),
     # a signed parameter followed by a plain one: s receives v zero-extended, ss receives u sign-extended
     "ps": dict(c="void ps(signed char u, char v) { s = v; ss = u; }", params=[("ps_u", 8, True), ("ps_v", 8)],
                body=[{"k": "expr", "e": {"k": "asg", "op": "=", "lhs": V("s"), "e": V("ps_v")}}, {"k": "expr", "e": {"k": "asg", "op": "=", "lhs": V("ss"), "e": V("ps_u")}}], calls=[]),
@@ -150,4 +152,4 @@ def vt_for(addr, fnames=(), extra=None):
 
 
 def fs_for(fnames):
-    return {f: dict(params=[p[0] for p in FUNCS[f]["params"]], body=FUNCS[f]["body"] or []) for f in closure(fnames)}
+    return {f: dict(params=[p[0] for p in FUNCS[f]["params"]], body=FUNCS[f]["body"] or [], rsg=bool(FUNCS[f].get("rsg"))) for f in closure(fnames)}
